@@ -12,6 +12,7 @@ import translate
 from vcore import cbool, clist, z
 
 TIE = 'Tie.C16'
+CASE_TIMEOUT = 90
 RULE = ('fault enumeration: (a) EVERY prefix length of the real cache file of a synthetic LAMMPS run and of a synthetic vasprun.xml '
         '(quick: every length for LAMMPS, every 7th + the last 40 for vasprun; thorough: every length for both and for 3 file variants), '
         'plus empty and garbage files; (b) random fault/recover cycles (Load with varying arguments, Crash k, Garbage, Remove) compared '
@@ -134,6 +135,13 @@ def _fresh(loader, base, opts):
     """reference: parse the source with these arguments (cache in a private scratch file)"""
     with tempfile.TemporaryDirectory() as td:
         return _load(loader, base, opts, cache=pathlib.Path(td) / 'ref.cache')
+
+
+def cleanup():
+    import glob
+    import shutil
+    for d in glob.glob(os.path.join(tempfile.gettempdir(), 'verif_c16_*')):
+        shutil.rmtree(d, ignore_errors=True)
 
 
 def impl(case):
